@@ -5,7 +5,7 @@ import pickle
 import plistlib
 
 from vlib import gt
-from vlib.par import pmap
+from vlib.par import pmap, timeout_failure
 
 PROPERTY = 'C13'
 LEVEL = 'other'
@@ -163,7 +163,7 @@ def bounded(tier, seed, repo_root):
     rich += [(i, f, m, ['--no-color'], [], d, 2) for i in ('json', 'json5', 'yaml', 'pickle') for f in TYPES for m in modes for d in (True, False)]
     rich += [('pickle', f, m, ['--no-color'], [], d, 3) for f in TYPES for m in modes for d in (True, False)]
     jobs += rich
-    fails = [f for fs in pmap(_job, jobs, repo_root, chunksize=8) for f in fs]
+    fails = [f for fs in pmap(_job, jobs, repo_root, chunksize=8, job_timeout=60, on_timeout=timeout_failure('C13')) for f in fs]
     return [{
         'name': 'C13.configuration-matrix', 'bound': f"{len(TYPES)} input types x {len(TYPES)} output formats x 3 modes x 3 styles x 2 "
         f"(condensed) x 2 (equal / different documents) = {len(jobs) - len(rich)} runs of main() on one plain document pair per type, plus {len(rich)} runs (types x formats x modes x equal/different) "
